@@ -27,6 +27,7 @@
 
 #include "event2/event-config.h"
 
+#include <errno.h>
 #include <unistd.h>
 #include <sys/signalfd.h>
 
@@ -56,6 +57,9 @@ sigfd_cb(evutil_socket_t fd, short what, void *arg)
 	struct event_base *base = arg;
 	ssize_t ret = read(fd, &fdsi, sizeof(fdsi));
 
+	/* the signal may be gone by now (e.g. taken by sigtimedwait()) */
+	if (ret < 0 && (errno == EAGAIN || errno == EINTR))
+		return;
 	EVUTIL_ASSERT(ret == sizeof(fdsi));
 	EVUTIL_ASSERT(fdsi.ssi_signo > 0 && fdsi.ssi_signo < NSIG);
 	EVUTIL_ASSERT(base->sig.ev_sigevent[fdsi.ssi_signo] != NULL);
